@@ -41,6 +41,8 @@ func runC14(p *core.Program, r *core.Report) {
 	r.Rule("C14.geometry", "register width/mask/addressing agree across Set, Get, UpdateIfGreater and Merge", 5)
 	r.Rule("C14.index", "index = top log2m bits of the hash; rank = clz((hash << log2m) | guard bit) + 1", 2)
 	r.Rule("C14.serial", "GetBytes ~ BuildHyperLogLog agree on the layout", 1)
+	r.Rule("C14.shifts", "no constant shift is as wide as its operand (the hash's high half is taken from the 64-bit value, not from a narrowed copy)", 3)
+	shiftWidthLint(p, r, "C14.shifts", []string{"util/hll"})
 	r.Rule("C14.widen", "estimator arithmetic widens before it multiplies: no float64/int64 conversion of a product or shift computed in a 32-bit integer type (m*m wraps at log2m = 16)", 1)
 	c14Widen(p, r)
 	// the register count of a set is the caller's count in both constructors (the word array may be
